@@ -177,7 +177,11 @@ pub fn cell(spec: &Value) -> Value {
     seen.insert(tree_key(&init), probe(&srv));
     frontier.push_back((init.clone(), vec![]));
     let mut outcomes: std::collections::BTreeSet<u64> = Default::default();
+    let budget = Budget::new();
     while let Some((state, path)) = frontier.pop_front() {
+        if budget.over(&mut c) {
+            break;
+        }
         let d = path.len();
         if d >= depth_max {
             continue;
